@@ -171,11 +171,14 @@ def check_1d(kind, cfg, fillset, lo, hi, via="fill"):
     h = build(kind, cfg)
     content = {}
     try:
-        if via == "fill":
+        if via in ("fill", "histogram"):
             for k, w in fillset:
                 x = geo.interior(k)
                 h.fill(x, w)
                 content[k] = content.get(k, 0.0) + w
+            if via == "histogram":
+                # the plain-histogram view of the same aggregator: its accessors describe the same partition
+                h = h.histogram()
         else:
             for k, w in fillset:
                 content[k] = content.get(k, 0.0) + w
@@ -294,13 +297,18 @@ def check_1d(kind, cfg, fillset, lo, hi, via="fill"):
     return out
 
 
-def check_xvalues(kind, cfg, fillset, xs):
+def check_xvalues(kind, cfg, fillset, xs, via="fill"):
     args = {"kind": kind, "cfg": [A.show(float(c)) if isinstance(c, float) else c for c in cfg],
-            "fill": [[k, w] for k, w in fillset], "xs": [A.show(x) for x in xs]}
+            "fill": [[k, w] for k, w in fillset], "xs": [A.show(x) for x in xs], "via": via}
     geo = Geo(kind, cfg, [k for k, _ in fillset])
     h = build(kind, cfg)
     for k, w in fillset:
         h.fill(geo.interior(k), w)
+    if via == "histogram":
+        try:
+            h = h.histogram()
+        except Exception as e:
+            return [core.v_exc(PROP, "xvalues", "histogram() raised", e, args)]
     out = []
     # where does fill put x?  -> probe twin
     exp = []
@@ -391,6 +399,13 @@ def _config(task):
         xs = ps + [float("inf"), float("-inf")]
         acc.add(check_xvalues(kind, cfg, fs, xs))
         acc.n("xvalue_queries", len(xs))
+        if kind != "IrregularlyBin":  # (IrregularlyBin has no histogram())
+            for lo, hi in queries[:: max(1, len(queries) // 12)]:
+                acc.add(check_1d(kind, cfg, fs, lo, hi, via="histogram"))
+                acc.n("range_queries")
+                acc.n("queries_on_histogram_view")
+            acc.add(check_xvalues(kind, cfg, fs, xs, via="histogram"))
+            acc.n("xvalue_queries", len(xs))
     acc.sample({"kind": kind, "cfg": list(cfg), "fill": fsets[-1], "queries": "every (lo<hi) pair over edges, midpoints, "
                 "edges +-1 ulp, outside points; full range; one-sided; xvalues"})
     return acc.freeze_sets()
@@ -617,7 +632,8 @@ def replay(driver, args):
                         args.get("via", "fill"))
     if driver == "xvalues":
         cfg = [un(c) for c in args["cfg"]]
-        return check_xvalues(args["kind"], cfg, [tuple(f) for f in args["fill"]], [un(x) for x in args["xs"]])
+        return check_xvalues(args["kind"], cfg, [tuple(f) for f in args["fill"]], [un(x) for x in args["xs"]],
+                             args.get("via", "fill"))
     if driver == "views2d":
         cells = [((c[0][0], c[0][1]), c[1]) for c in args["cells"]]
         return check_2d(args["kind"], args["cfgx"], args["cfgy"], cells)
